@@ -541,6 +541,13 @@ encodeResponse:
         *alertDescription = (unsigned char)ssl->err;
         *alertLevel = SSL_ALERT_LEVEL_FATAL;
         rc = tls13EncodeAlert(ssl, ssl->err, &tmp, requiredLen);
+        if (rc >= 0)
+        {
+            /* This is always a fatal alert caused by a parsing, decryption
+               or protocol error: flag the session so that no further
+               records are decoded, as the pre-1.3 decoder does. */
+            ssl->flags |= SSL_FLAGS_ERROR;
+        }
     }
     else
     {
